@@ -2,3 +2,5 @@ import Verif.Properties.C11
 
 #print axioms C11.refs_exact
 #print axioms C11.allRefs_exact
+#print axioms C11.itemsRefs_exact
+#print axioms C11.itemsRefs_sub_all
